@@ -19,7 +19,11 @@ def main():
     spec.loader.exec_module(mod)
     try:
         if a.replay:
-            if hasattr(mod, "replay"):
+            import json
+            rec = json.load(open(a.replay))
+            if rec.get("engine") == "gosym":
+                rc = vlib.replay_via_run(a.prop, mod, a.replay)
+            elif hasattr(mod, "replay"):
                 rc = mod.replay(a.replay)
             else:
                 rc = vlib.replay_file(a.prop, a.replay)
